@@ -163,8 +163,8 @@ def check_C04(ctx):
                         'schedules are sampled (seeded free-running clients with yield perturbation), each history is decided by TLC']
     tlc_mc(ctx, 'KevoTxn', 'MC_Txn.cfg', timeout=900)
     tlc_mc(ctx, 'KevoTxn', 'MC_TxnLive.cfg', timeout=900)
-    n = 36 if ctx.quick() else 300
-    runs, jobs = free_runs(ctx, n, [3, 4, 6], 6 if ctx.quick() else 10)
+    n = 36 if ctx.quick() else 10000
+    runs, jobs = free_runs(ctx, n, [3, 4, 6] if ctx.quick() else [2, 3, 4, 6, 8], 6 if ctx.quick() else 10)
     ctx.samples = [runs[0][:40]]
     judge(ctx, 'C04', runs, jobs, 'free', rerun_plain(ctx))
     selftest(ctx, runs)
@@ -197,7 +197,7 @@ def check_C17(ctx):
     fruns = run_jobs(ctx, fj)
     judge(ctx, 'C17', fruns, fj, 'failcommit', rerun_plain(ctx))
     # (2) double finish / use after finish / lock released when Commit and Rollback return: free-running histories
-    n = 16 if ctx.quick() else 150
+    n = 16 if ctx.quick() else 1000
     fr, fj = free_runs(ctx, n, [3, 4, 6], 6, tagp='c17free')
     judge(ctx, 'C17', fr, fj, 'free', rerun_plain(ctx))
     selftest(ctx, fr)
